@@ -24,7 +24,7 @@ from ufl.algorithms.transformer import Transformer
 from ufl.core.multiindex import FixedIndex, Index, MultiIndex
 
 from ufv import corpus
-from ufv.core import proved, undecided, violated
+from ufv.core import crash_text, deliberate, proved, undecided, violated
 from ufv.den import den
 from ufv.opq import Opq
 from ufv.semv import check_same
@@ -61,6 +61,8 @@ def build(run):
             try:
                 r = fn(e)
             except ValueError as ex:
+                if not deliberate(ex):
+                    return violated(f"crash instead of a result or a refusal: {crash_text(ex)}", reproduced=True, backend="exec")
                 return proved("refused", sample=f"{tag}: raises ValueError: {ex}"[:200])
             except Exception as ex:  # noqa: BLE001
                 return violated(f"{tag}: pass crashed with {type(ex).__name__}: {ex}", replay={"expr": str(e)[:800], "repr": repr(e)[:3000]},
